@@ -234,6 +234,37 @@ fn parse_regions(bytes: &[u8]) -> Vec<(usize, usize, String)> {
     out
 }
 
+/// C12(b): replays an event log and checks every punch, at the moment it is issued, against the
+/// regions described by the durable and by the current metadata image.
+pub fn check_punches(events: &[Ev]) -> Result<usize, Violation> {
+    let mut state = DiskState::default();
+    let mut n = 0;
+    for (i, ev) in events.iter().enumerate() {
+        if ev.kind == IoKind::Punch && ev.file == FileKind::Data {
+            n += 1;
+            for (which, latest) in [("durable", false), ("current", true)] {
+                for (start, len, id) in parse_regions(&state.regions_bytes(latest)) {
+                    let (a0, a1) = (ev.off as usize, (ev.off + ev.len) as usize);
+                    if len > 0 && a0 < start + len && start < a1 {
+                        return Err(Violation::new(
+                            "C12",
+                            format!("punch-hits-referenced-bytes/{which}"),
+                            format!(
+                                "event {}: punch {a0}..{a1} intersects bytes {start}..{} of region '{}' referenced by the {which} metadata image",
+                                i + 1,
+                                start + len,
+                                short_name(&id)
+                            ),
+                        ));
+                    }
+                }
+            }
+        }
+        state.apply(ev);
+    }
+    Ok(n)
+}
+
 pub struct CrashCfg {
     pub random_images: usize,
     pub property: String,
